@@ -30,7 +30,7 @@ def decode(data: bytes) -> dict:
         c = d.i(0, n - 1)
         r = d.i(0, 9)
         if r < 3:
-            case["events"].append({"e": "connect", "c": c, "handshake": not d.p(0.15), "split": d.p(0.3)})
+            case["events"].append({"e": "connect", "c": c, "handshake": not d.p(0.25), "split": d.p(0.3)})
         elif r < 6:
             case["events"].append({"e": "cmd", "c": c, "k": d.i(0, len(CMDS) - 1)})
         elif r < 7 and d.p(0.3):
@@ -279,12 +279,15 @@ class C19Engine(Engine):
                     else:
                         labels.add("connect:without-handshake")
                 elif ev["e"] == "cmd":
-                    if c.w is None or not c.shaken:
+                    if c.w is not None and not c.shaken and not getattr(c, "hs_sent", True) and not stopped and not getattr(c, "blocked", False):
+                        ev = dict(ev, e="handshake")      # a client that connected without a handshake sends it now
+                    elif c.w is None or not c.shaken:
                         continue
-                    await ask(c, ev["k"])
-                    if stopped:
-                        c.shaken = False       # that session may legitimately have ended after this line
-                elif ev["e"] == "handshake":
+                    else:
+                        await ask(c, ev["k"])
+                        if stopped:
+                            c.shaken = False       # that session may legitimately have ended after this line
+                if ev["e"] == "handshake":
                     if c.w is None or c.shaken or stopped or getattr(c, "blocked", False) or getattr(c, "hs_sent", False):
                         continue
                     c.hs_sent = True  # type: ignore[attr-defined]
